@@ -141,6 +141,8 @@ def report(prop, tier, seed, results, wall, write=True) -> int:
             violated += 1
         elif st2 in ("inconclusive", "known-finding"):
             inconclusive += 1
+            if os.environ.get("VF_VERBOSE"):
+                print("INCONCLUSIVE-JOB", st2, job.get("pid"), job.get("variant"), job.get("obs"), job.get("opts"), "paths", r.get("paths"), "unknown", r.get("unknown"), "exhausted", r.get("exhausted"))
         per_job.append(
             {
                 "program": job.get("pid"),
